@@ -84,7 +84,7 @@ func c04Oracle(c *ParseCase) string {
 	wdMu.Lock()
 	wdCase = c
 	wdMu.Unlock()
-	stdout, stderr, capErr := CaptureStd(func() { rr = RunReal(c.D, c.Args, nil, nil) })
+	stdout, stderr, capErr := CaptureStd(func() { rr = RunReal(c.D, c.Args, nil, &RealCfg{ExecErr: c.execErr(), CmdHandler: c.CmdHandler}) })
 	wdMu.Lock()
 	wdCase = nil
 	wdMu.Unlock()
@@ -121,7 +121,7 @@ func c04Oracle(c *ParseCase) string {
 			}
 		} else {
 			st.Label("error: foreign")
-			if !c04HasTypedPositional(c.D) {
+			if !c04HasTypedPositional(c.D) && rr.Err != errExecPlain {
 				return fmt.Sprintf("rejection with a non-*flags.Error error %T %q although no positional conversion, callback or handler error is possible here", rr.Err, rr.Err)
 			}
 		}
@@ -139,7 +139,14 @@ func c04Oracle(c *ParseCase) string {
 			return fmt.Sprintf("argv %q: %s", truncArgs(c.Args), m)
 		}
 	default:
-		if rr.Err != nil {
+		executed := len(rr.B.ExecLog) > 0
+		if executed && c.execErr() != nil {
+			// the command's own error is what the parser returns (and prints)
+			if rr.Err != c.execErr() {
+				return fmt.Sprintf("argv %q: the executed command returned %v but the parser returned %v", truncArgs(c.Args), c.execErr(), rr.Err)
+			}
+			st.Label("command returned an error: " + c.ExecErr)
+		} else if rr.Err != nil {
 			return fmt.Sprintf("argv %q: rejected with %T %q although nothing is wrong with the vector (expected success, remaining %q)", truncArgs(c.Args), rr.Err, firstLine(rr.Err.Error()), ref.Rest)
 		}
 	}
@@ -196,7 +203,12 @@ func truncArgs(a []string) []string {
 
 func TestC04(t *testing.T) {
 	S("C04").Rule = "declarations (every option type, choices also on flags, positionals, commands, namespaces) x hostile structured argv (junk tokens '', '-', '--', '---x', '-=', '--=v', invalid UTF-8, 5 kB tokens, multi-byte runes in clusters, bad values for every type, unknown options, help) x all 32 sets of {HelpFlag, PassDoubleDash, IgnoreUnknown, PrintErrors, PassAfterNonOption}; oracle: no panic, watchdog 20 s, error type as attributed by R (success expected => success), any non-flags error only where positional conversion can fail, fd-level stdout/stderr: empty without PrintErrors, exactly err+newline on the right stream with it. non-trivial: argv contains a junk/multi-byte token and at least one option token was processed; distinct by (declaration signature, argv)"
-	runProp(t, "C04", func(t *rapid.T) *ParseCase { return genParseCase(t, c04Decl, c04Argv) }, c04Oracle)
+	runProp(t, "C04", func(t *rapid.T) *ParseCase {
+		c := genParseCase(t, c04Decl, c04Argv)
+		c.ExecErr = []string{"", "help", "plain"}[weighted(t, "execErr", []int{6, 2, 2})]
+		c.CmdHandler = rapid.IntRange(0, 3).Draw(t, "cmdHandler") == 0
+		return c
+	}, c04Oracle)
 }
 
 // ---- native fuzzing: arbitrary bytes as argv against fixed rich declarations ----
